@@ -101,7 +101,13 @@ func (x *seqExec) absorbKnownCollision() bool {
 	if v == nil || x.opKey < 0 || x.opKey >= len(x.m.Keys) || !x.m.Keys[x.opKey].Collide {
 		return false
 	}
-	if x.plan.Extra["benignCollide"] == 1 {
+	if x.plan.Extra["benignCollide"] == 1 && x.plan.Extra["autoMerge"] == 1 {
+		// a benign world in which the hint dumper may start a hint merge on its own: the one
+		// recorded finding that can act there is KF-C13-collide-automerge
+		if !strings.HasPrefix(v.Sub, "collide-automerge:") {
+			v.Sub = "collide-automerge:" + v.Sub
+		}
+	} else if x.plan.Extra["benignCollide"] == 1 {
 		// no recorded finding can act in a benign collision world (see genSeqPlan)
 		if !strings.HasPrefix(v.Sub, "collide-benign:") {
 			v.Sub = "collide-benign:" + v.Sub
@@ -109,7 +115,7 @@ func (x *seqExec) absorbKnownCollision() bool {
 		x.out.probe("benign-collision-world-violation")
 		return false
 	}
-	if !strings.HasPrefix(v.Sub, "collide:") {
+	if !strings.HasPrefix(v.Sub, "collide:") && !strings.HasPrefix(v.Sub, "collide-automerge:") {
 		v.Sub = "collide:" + v.Sub
 	}
 	if matchKnown(v, x.plan) == "" {
